@@ -351,7 +351,7 @@ Qed.
 Lemma fcwvl_step : forall f, F_cwvl f -> F_cwvl (S f).
 Proof.
   intros f IH cid sg n w r w' He Hf Hn. cbn [conn_writev_loop] in He. pose proof (Mh_nonneg w) as Hnn.
-  destruct (sys_wr cid (c_fd (wc w cid)) (List.concat (firstn 1024 sg)) true w) as [k w1] eqn:Hs.
+  destruct (sys_wr cid (c_fd (wc w cid)) (List.concat (firstn iov_max sg)) true w) as [k w1] eqn:Hs.
   destruct (sys_wr_fuel _ _ _ _ _ _ _ Hs Hf) as [Hf1 Hc1].
   assert (Hep : forall a b c dd ww rr w3, epctl a b c dd ww = (rr, w3) -> FOK ww -> Mh ww = Mh w1 ->
             FOK w3 /\ adv (-2) w w3).
@@ -728,7 +728,7 @@ Proof.
   match type of He with (let '(_, _) := ?X in _) = _ => destruct X as [r2 w2] eqn:E2 end.
   assert (H2 : FOK w2 /\ adv 0 w w2).
   { eapply okp_seq; [exact H1|exact Hn|]. intros Hf1 Hn1.
-    destruct (has ev (EV_IN + EV_ERR + EV_HUP)); [|inversion E2; subst; split; [exact Hf1|apply adv_refl]].
+    destruct (has ev (EV_IN + EV_PRI + EV_ERR + EV_HUP)); [|inversion E2; subst; split; [exact Hf1|apply adv_refl]].
     apply (fread _ _ _ _ _ _ E2 Hf1 Hn1). }
   destruct r2; try (inversion He; subst; exact H2).
   destruct (has ev EV_RDHUP && c_opened (wc w2 cid)); [|inversion He; subst; exact H2].
